@@ -19,6 +19,17 @@ PANEL_PROBES_AFTER_NEW = 3
 # ---------------------------------------------------------------------------
 # scenario generation
 # ---------------------------------------------------------------------------
+def union_fields(rng, progs, n_valid):
+    """Keyword arguments that satisfy EVERY valid text of the alphabet at once (the union of their fields): a call made with
+    them succeeds whichever text the evaluator serves, so an error can only come from a mixture of two texts."""
+    f = {}
+    order = list(range(n_valid))
+    rng.shuffle(order)
+    for i in order:
+        f.update(gen.gen_fields(rng, progs[i], ascii_only=True, p_missing=0.0, p_extra=0.0))
+    return f
+
+
 def gen_scenario(rng, index):
     """Two families (swarm style): 'race' = few threads hammering one shared evaluator with small texts (many
     schedules per second, the publish / check-then-act windows are a large share of each run); 'swarm' = anything goes."""
@@ -76,7 +87,8 @@ def gen_scenario(rng, index):
                     ops.append({"op": "recompile", "s": 0, "t": rng.randrange(n_valid)})
             else:
                 for _ in range(rng.randint(2, 5)):
-                    ops.append({"op": "call", "s": 0, "f": gen.gen_fields(rng, progs[rng.randrange(n_valid)], ascii_only=True, p_missing=0.0)})
+                    ops.append({"op": "call", "s": 0, "f": union_fields(rng, progs, n_valid) if rng.random() < 0.6 else
+                                gen.gen_fields(rng, progs[rng.randrange(n_valid)], ascii_only=True, p_missing=0.0)})
             th.append(ops)
             continue
         for _ in range(rng.randint(1, max_ops)):
@@ -88,7 +100,8 @@ def gen_scenario(rng, index):
                 ops.append({"op": "recompile", "s": rng.randrange(n_shared), "t": t})
             elif r < w[1]:
                 src = rng.randrange(n_valid)
-                ops.append({"op": "call", "s": rng.randrange(n_shared), "f": gen.gen_fields(rng, progs[src], ascii_only=True)})
+                ops.append({"op": "call", "s": rng.randrange(n_shared), "f": union_fields(rng, progs, n_valid) if rng.random() < 0.4 else
+                            gen.gen_fields(rng, progs[src], ascii_only=True)})
             elif r < w[2]:
                 t = rng.randrange(len(progs)) if rng.random() < 0.15 else rng.randrange(n_valid)
                 ops.append({"op": "new", "t": t})
@@ -113,7 +126,7 @@ def gen_scenario(rng, index):
     elif pk == "targeted":
         policy = {"kind": "targeted", "p_line": rng.choice([0.0005, 0.005]), "p_hot": rng.choice([0.1, 0.3, 0.5])}
     elif pk == "park":
-        policy = {"kind": "park", "p_line": rng.choice([0.0, 0.0005]), "p_hot": rng.choice([0.0, 0.02, 0.1]),
+        policy = {"kind": "park", "p_line": rng.choice([0.0, 0.0005]), "p_hot": rng.choice([0.0, 0.02, 0.1, 0.3]),
                   "k_max": rng.choice([40, 160, 160, 400]), "need": rng.choice([1, 1, 2]),
                   "mode": rng.choice(["late", "late", "uniform", "uniform", "fixed"]), "back": rng.randrange(0, 16)}
     else:
@@ -147,7 +160,18 @@ class Runner:
             h0 = threads.HOT_COUNT[0]
             try:
                 ev = self.EE(t["text"])
-                judged.append({"accepts": True, "ev": ev, "hot": threads.HOT_COUNT[0] - h0})
+                hot = threads.HOT_COUNT[0] - h0
+                # an accepted text whose result depends on the global random state (no splitter key reaches the choice function,
+                # e.g. after the parser's error recovery dropped the splitters clause) has no sequential reference value
+                import random as _random
+
+                _random.seed(11)
+                a = [outcome_of(ev, **f) for f in t["panel"]]
+                _random.seed(22)
+                b = [outcome_of(ev, **f) for f in t["panel"]]
+                _random.seed(33)
+                c = [outcome_of(ev, **f) for f in t["panel"]]
+                judged.append({"accepts": True, "ev": ev, "hot": hot, "random": not (a == b == c)})
             except Exception as e:  # noqa: BLE001
                 judged.append({"accepts": False, "ev": None, "exc": type(e).__name__, "hot": threads.HOT_COUNT[0] - h0})
         return judged
@@ -207,6 +231,8 @@ class Runner:
             judged = None if cold else self.judge(sc)
         except threads.SimDeadlock:
             return {"result": "skip", "why": "sequential reference deadlocks (C11's business)"}
+        if judged is not None and any(j.get("random") for j in judged):
+            return {"result": "skip", "why": "an accepted text draws from the global random state: no sequential reference"}
         for k in sc["shared"]:
             if not judged[k]["accepts"]:
                 return {"result": "skip", "why": "initial text of a shared evaluator is rejected by the tree"}
@@ -271,6 +297,8 @@ class Runner:
             except threads.SimDeadlock as e:
                 res.update(result="violation", vclass="deadlock", detail={"phase": "sequential constructions after the race", "detail": str(e)})
                 return res
+            if any(j.get("random") for j in judged):
+                return {"result": "skip", "why": "an accepted text draws from the global random state: no sequential reference"}
         try:
             if sched.deadlock is not None:
                 raise Violation("deadlock", {"blocked_threads": sched.deadlock["blocked"], "step": sched.step,
